@@ -4,6 +4,7 @@ import (
 	"bytes"
 	"encoding/binary"
 	"fmt"
+	"reflect"
 
 	"github.com/golang/protobuf/proto"
 	"github.com/golang/protobuf/ptypes/any"
@@ -276,3 +277,160 @@ func c06MutJudge(name, sizer string) (got, want string) {
 	want += fmt.Sprintf(" | back n=%d err=nil equal=true", len(w2))
 	return got, want
 }
+
+// ---- messages with their own Marshal / Unmarshal methods, of several shapes (round 14)
+//
+// The frame alphabet's "legacy" kind is one struct holding one byte slice whose Unmarshal overwrites it. The
+// statement says "every message"; a message that brings its own codec may also
+//   - be a struct of fixed-size fields (encoding/binary can size it - differently from its own encoding),
+//   - have a Size() or ProtoSize() method that means something else than the encoded length,
+//   - MERGE in Unmarshal instead of overwriting (the documented golang/protobuf contract: proto.Unmarshal
+//     resets the target first, Unmarshal methods append),
+//   - encode to nothing at all.
+// For each: Marshal's count = bytes written = Size = HeaderSize + len(own encoding), the wire is header + own
+// encoding, and Unmarshal into a fresh and into a DIRTY reused target yields the source (compared through the
+// type's own encoding and reflect.DeepEqual), with a small frame behind it intact.
+
+type c06Pt struct{ X, Y int32 } // fixed-size for encoding/binary (8 bytes); encodes as two varints (2..10 bytes)
+
+func (p *c06Pt) Marshal() ([]byte, error) {
+	b := make([]byte, 2*binary.MaxVarintLen32)
+	n := binary.PutVarint(b, int64(p.X))
+	n += binary.PutVarint(b[n:], int64(p.Y))
+	return b[:n], nil
+}
+func (p *c06Pt) Unmarshal(b []byte) error {
+	x, n := binary.Varint(b)
+	y, _ := binary.Varint(b[n:])
+	p.X, p.Y = int32(x), int32(y)
+	return nil
+}
+func (p *c06Pt) Reset()         { *p = c06Pt{} }
+func (p *c06Pt) String() string { return fmt.Sprint(p.X, ",", p.Y) }
+func (p *c06Pt) ProtoMessage()  {}
+
+type c06Batch struct{ Items []string } // Size() counts items; Unmarshal APPENDS (merge semantics)
+
+func (b *c06Batch) Marshal() ([]byte, error) {
+	var out []byte
+	for _, it := range b.Items {
+		var lb [binary.MaxVarintLen64]byte
+		out = append(append(out, lb[:binary.PutUvarint(lb[:], uint64(len(it)))]...), it...)
+	}
+	return out, nil
+}
+func (b *c06Batch) Unmarshal(d []byte) error {
+	for len(d) > 0 {
+		l, n := binary.Uvarint(d)
+		if n <= 0 || uint64(len(d)-n) < l {
+			return fmt.Errorf("c06Batch: bad encoding")
+		}
+		b.Items = append(b.Items, string(d[n:n+int(l)]))
+		d = d[n+int(l):]
+	}
+	return nil
+}
+func (b *c06Batch) Reset()         { b.Items = nil }
+func (b *c06Batch) String() string { return fmt.Sprint(b.Items) }
+func (b *c06Batch) ProtoMessage()  {}
+func (b *c06Batch) Size() int      { return len(b.Items) }
+
+type c06Sized struct{ Data []byte } // ProtoSize() (the gogo spelling) means something else as well
+
+func (l *c06Sized) Marshal() ([]byte, error) { return append([]byte{0x7e}, l.Data...), nil }
+func (l *c06Sized) Unmarshal(b []byte) error {
+	if len(b) > 0 {
+		l.Data = append(l.Data, b[1:]...) // merges, too
+	}
+	return nil
+}
+func (l *c06Sized) Reset()         { l.Data = nil }
+func (l *c06Sized) String() string { return fmt.Sprintf("%x", l.Data) }
+func (l *c06Sized) ProtoMessage()  {}
+func (l *c06Sized) ProtoSize() int { return 1000 + len(l.Data) }
+
+type c06OwnCodec struct {
+	Name  string
+	Src   func() proto.Message // the message to write
+	Dirty func() proto.Message // a target that already holds something else
+	Enc   func(m proto.Message) []byte
+}
+
+func c06OwnCodecList() []c06OwnCodec {
+	enc := func(m proto.Message) []byte {
+		b, _ := m.(interface{ Marshal() ([]byte, error) }).Marshal()
+		return b
+	}
+	return []c06OwnCodec{
+		{"Pt(1,2)", func() proto.Message { return &c06Pt{1, 2} }, func() proto.Message { return &c06Pt{-7, 9} }, enc},
+		{"Pt(-1,MaxInt32)", func() proto.Message { return &c06Pt{-1, 1<<31 - 1} }, func() proto.Message { return &c06Pt{3, 3} }, enc},
+		{"Pt(0,0)", func() proto.Message { return &c06Pt{} }, func() proto.Message { return &c06Pt{5, 6} }, enc},
+		{"Batch[3 items]", func() proto.Message { return &c06Batch{[]string{"a", "", "hello world"}} }, func() proto.Message { return &c06Batch{[]string{"old", "stuff"}} }, enc},
+		{"Batch[0 items: empty encoding]", func() proto.Message { return &c06Batch{} }, func() proto.Message { return &c06Batch{[]string{"old"}} }, enc},
+		{"Batch[40 items of 80 bytes]", func() proto.Message {
+			b := &c06Batch{}
+			for i := 0; i < 40; i++ {
+				b.Items = append(b.Items, string(c06Payload(80+i%3)))
+			}
+			return b
+		}, func() proto.Message { return &c06Batch{[]string{"x"}} }, enc},
+		{"Sized(5 bytes)", func() proto.Message { return &c06Sized{[]byte("hello")} }, func() proto.Message { return &c06Sized{[]byte("previous content")} }, enc},
+		{"Sized(empty)", func() proto.Message { return &c06Sized{} }, func() proto.Message { return &c06Sized{[]byte("previous")} }, enc},
+		{"Sized(5000 bytes)", func() proto.Message { return &c06Sized{c06Payload(5000)} }, func() proto.Message { return &c06Sized{[]byte("p")} }, enc},
+	}
+}
+
+func c06OwnCodecJudge(name string, chunk int) (got, want string) {
+	var e *c06OwnCodec
+	for _, x := range c06OwnCodecList() {
+		if x.Name == name {
+			x := x
+			e = &x
+		}
+	}
+	if e == nil {
+		return "unknown own-codec message " + name, ""
+	}
+	defer func() {
+		if x := recover(); x != nil {
+			got += fmt.Sprint(" panic: ", x)
+		}
+	}()
+	src := e.Src()
+	raw := e.Enc(src)
+	h := make([]byte, 32)
+	copy(h, "1.0.0")
+	binary.LittleEndian.PutUint64(h[16:], 32)
+	binary.LittleEndian.PutUint64(h[24:], uint64(len(raw)))
+	wire := append(h, raw...)
+	small := c06Frame{Kind: "pb", Payload: 3}
+	want = fmt.Sprintf("marshal n=%d err=nil written=%s Size=%d HeaderSize=32", len(wire), digest(wire), len(wire))
+	w := &c06CountWriter{}
+	n, err := pbcmpl.Marshal(w, src)
+	got = fmt.Sprintf("marshal n=%d err=%s written=%s Size=%d HeaderSize=%d", n, errName(err), digest(w.buf.Bytes()), pbcmpl.Size(src), pbcmpl.HeaderSize(src))
+	stream := append(append([]byte{}, wire...), c06Wire(small)...)
+	for _, dirty := range []bool{false, true} {
+		want += fmt.Sprintf(" | dirty=%v n=%d ver=%q err=nil same=true reenc=%s next[n=%d payload=%s]", dirty, len(wire), "1.0.0", digest(raw), len(c06Wire(small)), digest(c06Payload(3)))
+		var t proto.Message
+		if dirty {
+			t = e.Dirty()
+		} else {
+			t = e.Src()
+			t.Reset()
+		}
+		r := &c06Reader{data: stream, uniform: chunk}
+		n, ver, err := pbcmpl.Unmarshal(r, t)
+		same := reflect.DeepEqual(normEmpty(src), normEmpty(t))
+		got += fmt.Sprintf(" | dirty=%v n=%d ver=%q err=%s same=%v reenc=%s", dirty, n, ver, errName(err), same, digest(e.Enc(t)))
+		t2 := c06Empty("pb")
+		n2, _, err2 := pbcmpl.Unmarshal(r, t2)
+		got += fmt.Sprintf(" next[n=%d payload=%s]", n2, digest(c06PayloadOf(t2)))
+		if err2 != nil {
+			got += " next-err=" + errName(err2)
+		}
+	}
+	return got, want
+}
+
+// normEmpty renders a message for comparison: nil and empty slices are the same message.
+func normEmpty(m proto.Message) string { return fmt.Sprintf("%T %s", m, m.String()) }
